@@ -98,3 +98,16 @@ Proof.
   intros max st R c r C D N. destruct (inv_reachable _ _ R).
   unfold step. rewrite i_nopanic, C, D, N. simpl. eauto.
 Qed.
+
+(* one death frees one slot: once the death of c is recorded, no dead() region for c is enabled any more
+   (neither the Run goroutine's nor a holder's mark-dead), so total is decremented once per connection *)
+Theorem death_recorded_once : forall max st, reachable max st ->
+  forall c, dead_in (s_conns st) c = true ->
+    step st (ERunDead c) = None /\ forall x, step st (EDeadBy x c) = None.
+Proof.
+  intros max st R c D. destruct (inv_reachable _ _ R). pose proof (i_flags _ D) as F.
+  unfold dead_in in D. unfold deleted_in in F. unfold step. rewrite i_nopanic.
+  destruct (s_conns st c) as [r|] eqn:C; [|discriminate]. rewrite D, F. split.
+  - reflexivity.
+  - intros x. destruct (s_pc st x); try reflexivity. rewrite andb_false_r. reflexivity.
+Qed.
